@@ -32,6 +32,9 @@ var (
 	flagProcs    = flag.Int("verif.procs", 0, "GOMAXPROCS for this child (0 = leave)")
 )
 
+// recycleAtBytes is the memory obtained from the OS beyond which a child ends early (16 children run side by side).
+const recycleAtBytes = 2 << 30
+
 // Violation is one broken rule.
 type Violation struct {
 	Prop   string `json:"prop"`
@@ -169,6 +172,17 @@ func TestVerif(t *testing.T) {
 		plan := sc.gen(seed, *flagTier, *flagVariant)
 		out := runOne(t, sc, seed, plan)
 		emit(map[string]any{"ev": "end", "seed": seed, "out": out})
+		// Goroutines that a finished bubble leaves blocked pin that run's buffers and payloads for the life of the
+		// process. Runs are independent of the process they execute in (every run is a function of its seed alone), so
+		// a child that has grown large hands the rest of its shard back: it exits cleanly after a completed run and
+		// the driver starts a fresh child at the next seed.
+		if i%8 == 7 && i+1 < *flagRuns {
+			var ms runtime.MemStats
+			runtime.ReadMemStats(&ms)
+			if ms.Sys > recycleAtBytes {
+				break
+			}
+		}
 	}
 	// The repository's TestMain waits for goroutines to disappear; goroutines of finished bubbles that were
 	// deliberately left blocked (hung plans) never do. All results are flushed: leave now.
